@@ -172,7 +172,14 @@ def public_timing(o):
     td = timing_desc(o.timing)
     if td["mode"] == 2 and td["tss"] is not None and len(td["tss"]) == o.sample_count:
         try:
-            pub = [read_dtm(x) for x in o.timing.get_timestamps(0, o.sample_count)]
+            got = o.timing.get_timestamps(0, o.sample_count)
+            pub = [read_dtm(x) for x in got]
+            if isinstance(got, list):
+                # the caller does what it likes with the list it was handed: that is not the timing's own list
+                got.append("x"); got.reverse(); del got[1:]
+                pub2 = [read_dtm(x) for x in o.timing.get_timestamps(0, o.sample_count)]
+                if pub2 != pub:
+                    pub = None
         except Exception:
             pub = None
         if pub != td["tss"]:
@@ -403,7 +410,10 @@ def timing_desc_gen(rng, count=None):
     if m < 2:
         return {"mode": 0, "ts": rng.choice([None, 5 * u]), "off": rng.choice([None, u])}
     if m < 5:
-        return {"mode": 1, "ts": rng.choice([None, 5 * u]), "off": rng.choice([None, u]), "si": rng.choice([u, 2 * u, u // 4])}
+        # intervals include a huge one and its neighbour one unit away: different intervals, whatever a float makes of them
+        big = 86400 * 10**8 * u
+        return {"mode": 1, "ts": rng.choice([None, 5 * u]), "off": rng.choice([None, u]),
+                "si": rng.choice([u, 2 * u, u // 4, u, 2 * u, big, big + 1, big, big + 1])}
     n = count if (count is not None and rng.random() < 0.8) else rng.choice([0, 1, 2, 3, 5])
     base = rng.randrange(0, 50)
     direction = rng.choice([1, 1, -1, 0])
@@ -902,6 +912,21 @@ def scripted(rng):
                {"op": "append_arr", "i": 0, "arr": mk(m), "ts": [(10 + j) * u for j in range(m - 1)]},
                {"op": "get", "i": 0},
                {"op": "append_arr", "i": 0, "arr": mk(m), "ts": [(20 + j) * u for j in range(m)]},
+               {"op": "get", "i": 0}]
+        out.append({"ops": ops})
+    # REGULAR receiver and source whose sample intervals differ by one unit out of 8.64e18 (equal as float seconds): still a
+    # differing interval, so a TimingMismatchWarning; and the same interval: none
+    for kind in ("A", "C", "D"):
+        dt = sorted(SUPPORTED[kind])[0]
+        big = 86400 * 10**8 * u
+        mk = lambda n: {"vals": [[rng.randrange(2)] for _ in range(n)], "ndim": 1, "ncols": 1, "dtype": dt, "form": "own"}
+        reg = lambda si: {"mode": 1, "ts": 5 * u, "off": None, "si": si}
+        ops = [{"op": "from_array", "kind": kind, "arr": mk(2), "via": "ctor", "scale": 0, "props": {}, "timing": reg(big)},
+               {"op": "from_array", "kind": kind, "arr": mk(1), "via": "ctor", "scale": 0, "props": {}, "timing": reg(big + 1)},
+               {"op": "from_array", "kind": kind, "arr": mk(1), "via": "ctor", "scale": 0, "props": {}, "timing": reg(big)},
+               {"op": "append_wfm", "i": 0, "srcs": [1], "single": True},
+               {"op": "append_wfm", "i": 0, "srcs": [2], "single": rng.random() < 0.5},
+               {"op": "append_wfm", "i": 0, "srcs": [2, 1], "single": False, "seq": "list"},
                {"op": "get", "i": 0}]
         out.append({"ops": ops})
     # borrowed buffer without room: load_data(copy=True) / append that must grow -> rejected, nothing changes
